@@ -1,0 +1,89 @@
+//go:build verif
+
+package b1t6
+
+// Machine-checked contracts for this package (read by /verif/govc; comment-only, compiled only
+// with -tags verif). See /verif/DESIGN.md.
+
+//@ props C14
+
+//@ spec sbyte(b byte) int = ite(int(b) < 128, int(b), int(b) - 256)
+//@ spec istrit(t int8) bool = -1 <= t && t <= 1
+//@ spec val3(t trinary.Trits, j int) int = int(t[j]) + 3*int(t[j+1]) + 9*int(t[j+2])
+//@ spec val6(t trinary.Trits, j int) int = val3(t, j) + 27*val3(t, j+3)
+//@ spec trits6(t trinary.Trits, j int) bool = istrit(t[j]) && istrit(t[j+1]) && istrit(t[j+2]) && istrit(t[j+3]) && istrit(t[j+4]) && istrit(t[j+5])
+//@ spec validgrp(t trinary.Trits, j int) bool = -128 <= val6(t, j) && val6(t, j) <= 127
+//@ spec istryte(c byte) bool = c == '9' || ('A' <= c && c <= 'Z')
+//@ spec tval(c byte) int = ite(c == '9', 0, ite(c <= 'M', int(c) - 64, int(c) - 91))
+//@ spec validpair(s string, j int) bool = -128 <= tval(s[j]) + 27*tval(s[j+1]) && tval(s[j]) + 27*tval(s[j+1]) <= 127
+
+//@ func EncodedLen(n int) (r int)
+//@   requires 0 <= n && n <= 1<<59
+//@   ensures  r == 6*n
+//@   panics   never
+
+//@ func DecodedLen(n int) (r int)
+//@   requires 0 <= n
+//@   ensures  r == n/6
+//@   panics   never
+
+//@ func encodeGroup(b byte) (t1 int8, t2 int8)
+//@   ensures -13 <= t1 && t1 <= 13 && -13 <= t2 && t2 <= 13
+//@   ensures int(t1) + 27*int(t2) == sbyte(b)
+//@   panics  never
+
+//@ func decodeGroup(t1 int8, t2 int8) (b byte, ok bool)
+//@   requires -13 <= t1 && t1 <= 13 && -13 <= t2 && t2 <= 13
+//@   ensures  ok == (-128 <= int(t1) + 27*int(t2) && int(t1) + 27*int(t2) <= 127)
+//@   ensures  implies(ok, sbyte(b) == int(t1) + 27*int(t2))
+//@   ensures  implies(!ok, b == 0)
+//@   panics   never
+
+//@ func Encode(dst trinary.Trits, src []byte) (n int)
+//@   requires len(dst) >= 6*len(src)
+//@   ensures  n == 6*len(src)
+//@   ensures  forall(k, 0, len(src), trits6(dst, 6*k) && val6(dst, 6*k) == sbyte(src[k]))
+//@   modifies dst[0:6*len(src)]
+//@   panics   never
+//@   loop 1 invariant 0 <= i && i <= len(src) && j == 6*i
+//@   loop 1 invariant forall(k, 0, i, trits6(dst, 6*k) && val6(dst, 6*k) == sbyte(src[k]))
+//@   loop 1 invariant forall(k, 6*i, cap(dst), dst[k] == old(dst[k]))
+
+//@ func EncodeToTrytes(src []byte) (r trinary.Trytes)
+//@   requires len(src) <= 1<<58
+//@   ensures  len(r) == 2*len(src)
+//@   ensures  forall(k, 0, len(src), istryte(r[2*k]) && istryte(r[2*k+1]) && tval(r[2*k]) + 27*tval(r[2*k+1]) == sbyte(src[k]))
+//@   ensures  forall(k, 0, len(src), -13 <= tval(r[2*k]) && tval(r[2*k]) <= 13 && -13 <= tval(r[2*k+1]) && tval(r[2*k+1]) <= 13)
+//@   panics   never
+//@   loop 1 invariant 0 <= i && i <= len(src) && len(dst) == 2*i
+//@   loop 1 invariant forall(k, 0, i, istryte(dst[2*k]) && istryte(dst[2*k+1]) && tval(dst[2*k]) + 27*tval(dst[2*k+1]) == sbyte(src[k]))
+//@   loop 1 invariant forall(k, 0, i, -13 <= tval(dst[2*k]) && tval(dst[2*k]) <= 13 && -13 <= tval(dst[2*k+1]) && tval(dst[2*k+1]) <= 13)
+
+//@ func Decode(dst []byte, src trinary.Trits) (n int, err error)
+//@   requires forall(k, 0, len(src), istrit(src[k]))
+//@   requires len(dst) >= len(src)/6
+//@   ensures  isnil(err) == (len(src)%6 == 0 && forall(k, 0, len(src)/6, validgrp(src, 6*k)))
+//@   ensures  0 <= n && n <= len(src)/6
+//@   ensures  implies(isnil(err), n == len(src)/6)
+//@   ensures  forall(k, 0, n, validgrp(src, 6*k) && sbyte(dst[k]) == val6(src, 6*k))
+//@   ensures  implies(n < len(src)/6, is(err, ErrInvalidTrits) && !validgrp(src, 6*n))
+//@   ensures  implies(n == len(src)/6 && len(src)%6 != 0, is(err, ErrInvalidLength))
+//@   ensures  implies(is(err, ErrInvalidTrits), n < len(src)/6)
+//@   modifies dst[0:len(src)/6]
+//@   panics   never
+//@   loop 1 invariant 0 <= i && j == 6*i && j <= len(src)
+//@   loop 1 invariant forall(k, 0, i, validgrp(src, 6*k) && sbyte(dst[k]) == val6(src, 6*k))
+//@   loop 1 invariant forall(k, i, cap(dst), dst[k] == old(dst[k]))
+
+//@ func DecodeTrytes(src trinary.Trytes) (r []byte, err error)
+//@   requires forall(k, 0, len(src), istryte(src[k]))
+//@   requires len(src) <= 1<<58
+//@   ensures  isnil(err) == (len(src)%2 == 0 && forall(k, 0, len(src)/2, validpair(src, 2*k)))
+//@   ensures  implies(isnil(err), len(r) == len(src)/2)
+//@   ensures  implies(isnil(err), forall(k, 0, len(src)/2, sbyte(r[k]) == tval(src[2*k]) + 27*tval(src[2*k+1])))
+//@   ensures  implies(!isnil(err), len(r) == 0 && r == nil)
+//@   ensures  implies(!isnil(err), is(err, ErrInvalidTrits) == exists(k, 0, len(src)/2, !validpair(src, 2*k)))
+//@   ensures  implies(!isnil(err) && !is(err, ErrInvalidTrits), is(err, ErrInvalidLength))
+//@   panics   never
+//@   loop 1 invariant 0 <= i && j == 2*i && j <= len(src) && len(dst) == len(src)/2
+//@   loop 1 invariant forall(k, 0, i, validpair(src, 2*k) && sbyte(dst[k]) == tval(src[2*k]) + 27*tval(src[2*k+1]))
